@@ -55,7 +55,18 @@ def derivative(poly: PolyLike, *diffvars: Union[ndpoly, str, int]) -> ndpoly:
             (exponent[idx] * coefficient.T).T
             for exponent, coefficient in zip(exponents, poly.coefficients)
         ]
-        exponents[:, idx] -= 1
+        # Terms free of the variable differentiate to zero. They must not be
+        # carried along: their (unsigned) exponent would wrap around below.
+        keep = exponents[:, idx] > 0
+        if numpy.any(keep):
+            exponents = exponents[keep]
+            coefficients = [
+                coefficient for coefficient, keep_ in zip(coefficients, keep) if keep_
+            ]
+            exponents[:, idx] -= 1
+        else:
+            exponents = numpy.zeros((1, exponents.shape[1]), dtype=exponents.dtype)
+            coefficients = [numpy.zeros_like(coefficients[0])]
         assert not numpy.any(exponents < 0)
 
         poly = numpoly.ndpoly.from_attributes(
